@@ -6,7 +6,7 @@ import vlib
 from vlib import Stream, hexs
 from checks.murmur import murmur3_32
 from checks import c05, c08
-from checks.c05 import kop, unhex, colliding
+from checks.c05 import kop, unhex, colliding, FULL_COLLISIONS, VS_LENGTHS, vs_value, full_collision_ops
 
 ALLOCS = re.compile(r"^allocs=(\d+) ")
 
@@ -309,11 +309,37 @@ def hash_streams(check, prop):
                         ops += ["new %d" % r] + pre + ["reset"] + ["next 1"] * j + [arm] + ["next 1"] * (len(pre) + 3) + observe
             ops.append("end")
         sts.append(S("fault-enumeration", ops))
+        # distinct names with identical 32-bit hash: the deeper key (both insertion orders) under every failure
+        ops = []
+        for r in (1, 2, 7, 0):
+            for a, b in FULL_COLLISIONS:
+                for x, y in ((a, b), (b, a)):
+                    pre = ["new %d" % r, kop("put", x, "01"), kop("put", y, "02")]
+                    for t in (kop("get", x, "1"), kop("getstr", x), kop("getint", x), kop("put", x, "09"), kop("putstrf", x, hexs(b"s")), kop("rm", x)):
+                        for arm in ("fault 1", "fault 2", "fault 3", "faultfrom 1"):
+                            ops += pre + [arm, t, kop("get", x, "0"), kop("get", y, "0"), "size", "walk 0"]
+        ops.append("end")
+        sts.append(S("full-hash-collisions", ops))
+        # putstrf: every formatted length around the buffer sizes of DYNAMIC_VSPRINTF x a failure at
+        # every allocation of the call (format buffers, then strdup / malloc / node)
+        ops = []
+        for i, n in enumerate(VS_LENGTHS):
+            rounds = 1 + (n >= 1024) + (n >= 2048) + (n >= 4096) + (n >= 8192)
+            v = hexs(vs_value(n, i))
+            arms = ["fault %d" % k for k in range(1, rounds + 5)] + ["faultfrom %d" % k for k in range(1, rounds + 3)]
+            for arm in arms:
+                ops += ["new 3", arm, kop("putstrf", b"p", v), kop("getstr", b"p"), kop("rm", b"p")]
+            if n in (1023, 1024, 2047, 2048, 4095, 4096, 5000, 10000):
+                for arm in arms:         # replace path: no node allocation
+                    ops += ["new 3", kop("put", b"p", hexs(b"old")), arm, kop("putstrf", b"p", v), kop("getstr", b"p"), kop("rm", b"p")]
+        ops.append("end")
+        sts.append(S("putstrf-lengths", ops))
         # random histories with random failures
         ops = []
         for hno in range(40 if not big else 400):
             r = rng.choice([1, 2, 3, 7, 0])
             pool = colliding(r or 1000, 3, b"r", start=rng.randrange(2000)) + [b"k%d" % rng.randrange(30) for _ in range(5)] + [b""]
+            pool += list(rng.choice(FULL_COLLISIONS))
             ops.append("new %d %s" % (r, rng.choice("01")))
             for _ in range(rng.randrange(20, 200)):
                 if rng.random() < 0.35:
@@ -335,6 +361,7 @@ def hash_streams(check, prop):
             r = rng.choice([1, 2, 3, 7, 1000, 0])
             pool = colliding(r or 1000, rng.randrange(2, 6), b"r", start=rng.randrange(2000))
             pool += [b"k%d" % rng.randrange(50) for _ in range(6)] + [b"", bytes(rng.randrange(1, 256) for _ in range(rng.randrange(1, 30)))]
+            pool += list(rng.choice(FULL_COLLISIONS))
             ops.append("new %d %s" % (r, rng.choice("01")))
             for _ in range(rng.randrange(20, 260)):
                 k = rng.choice(pool)
@@ -346,6 +373,16 @@ def hash_streams(check, prop):
                                        "next 1", "next 1", "reset", "size", "walk 1", "clear"][:20 if rng.random() < 0.9 else 21]))
             ops += ["walk 1", "end"]
         sts.append(S("random-histories", ops))
+        # distinct names with identical 32-bit hash (both insertion orders); putstrf around the buffer sizes
+        ops = []
+        for r in (1, 2, 7, 0):
+            for a, b in FULL_COLLISIONS:
+                ops += full_collision_ops(r, a, b) + full_collision_ops(r, b, a)
+        ops.append("new 3")
+        for i, n in enumerate(VS_LENGTHS):
+            ops += [kop("putstrf", b"p", hexs(vs_value(n, i))), kop("getstr", b"p"), kop("rm", b"p")]
+        ops.append("end")
+        sts.append(S("collisions-putstrf", ops))
         # copies, then every kind of mutation, then release
         ops = []
         vals = [b"v", b"", b"\0", b"a\0b\0", b"\0\0\0\0", b"\xff" * 33]
@@ -424,6 +461,29 @@ def list_streams(check, prop):
                         ops += ["new " + o] + pre + ["reset"] + ["next 1"] * j + [arm] + ["next 1"] * (len(pre) + 3) + observe
             ops.append("end")
         sts.append(S("fault-enumeration", ops))
+        # distinct names with identical 32-bit hash, put in descending order: sort / lookups under failures
+        ops = []
+        for o in c08.ALL_OPTS:
+            for a, b in FULL_COLLISIONS:
+                lo, hi = sorted((a, b))
+                pre = ["new " + o, kop("put", hi, "31"), kop("put", lo, "32"), kop("put", hi, "33")]
+                for t in ("sort", kop("get", lo, "1"), kop("getmulti", hi, "1"), kop("put", lo, "39"), kop("rm", hi), "save 3d 1"):
+                    for arm in ("fault 1", "fault 2", "fault 3", "faultfrom 1"):
+                        ops += pre + [arm, t, "sort", kop("getmulti", lo, "0"), kop("getmulti", hi, "0"), "walk 0"]
+        ops.append("end")
+        sts.append(S("full-hash-collisions", ops))
+        # putstrf: every formatted length around the buffer sizes of DYNAMIC_VSPRINTF x a failure at
+        # every allocation of the call (format buffers, then the three of newobj)
+        ops = []
+        for i, n in enumerate(VS_LENGTHS):
+            rounds = 1 + (n >= 1024) + (n >= 2048) + (n >= 4096) + (n >= 8192)
+            v = hexs(vs_value(n, i))
+            arms = ["fault %d" % k for k in range(1, rounds + 5)] + ["faultfrom %d" % k for k in range(1, rounds + 3)]
+            for o in ("0 0 0 0", "1 0 0 0"):
+                for arm in arms:
+                    ops += ["new " + o, kop("put", b"p", hexs(b"old")), arm, kop("putstrf", b"p", v), kop("getmulti", b"p", "1"), "clear"]
+        ops.append("end")
+        sts.append(S("putstrf-lengths", ops))
         # a value longer than the first buffers of DYNAMIC_VSPRINTF: every attempt of the line
         ops = []
         for ln in (1000, 1100, 2100):
@@ -434,7 +494,7 @@ def list_streams(check, prop):
         ops = []
         for hno in range(48 if not big else 480):
             o = c08.ALL_OPTS[hno % 16]
-            pool = K + [b"B", b"k1", b"", b"x y"]
+            pool = K + [b"B", b"k1", b"", b"x y"] + list(rng.choice(FULL_COLLISIONS))
             ops.append("new %s %s" % (o, rng.choice("01")))
             for _ in range(rng.randrange(20, 160)):
                 if rng.random() < 0.35:
@@ -455,6 +515,7 @@ def list_streams(check, prop):
         for hno in range(48 if not big else 480):
             o = c08.ALL_OPTS[hno % 16]
             pool = K + [b"B", b"ab", b"", b"k1", bytes(rng.randrange(1, 256) for _ in range(rng.randrange(1, 20)))]
+            pool += list(rng.choice(FULL_COLLISIONS))
             ops.append("new %s %s" % (o, rng.choice("01")))
             for _ in range(rng.randrange(20, 200)):
                 k = rng.choice(pool)
@@ -468,6 +529,19 @@ def list_streams(check, prop):
                                        "save 3d 1", "load %s 3d 1" % hexs(rng.choice(files)), "rt 3d " + o]))
             ops += ["walk 1", "end"]
         sts.append(S("random-histories", ops))
+        # distinct names with identical 32-bit hash in descending order, sorted; putstrf around the buffer sizes
+        ops = []
+        for o in c08.ALL_OPTS:
+            for a, b in FULL_COLLISIONS:
+                lo, hi = sorted((a, b))
+                ops += ["new " + o, kop("put", hi, "31"), kop("put", lo, "32"), kop("put", hi, "33"), "sort", "walk 1",
+                        kop("get", lo, "1"), kop("getmulti", hi, "1"), kop("getmulti", lo, "2"), kop("rm", lo), kop("get", hi, "1"), "sort"]
+        for o in ("0 0 0 0", "1 1 0 1"):
+            ops.append("new " + o)
+            for i, n in enumerate(VS_LENGTHS):
+                ops += [kop("putstrf", b"p", hexs(vs_value(n, i))), kop("getstr", b"p"), "clear"]
+        ops.append("end")
+        sts.append(S("collisions-putstrf", ops))
         ops = []
         vals = [b"v", b"\0", b"a\0b\0", b"\0\0\0\0", b"\xff" * 33, b"1"]
         for o in ("0 0 0 0", "1 1 0 0", "0 0 1 1", "0 1 0 1"):
